@@ -14,7 +14,8 @@ Lemma pres_probe s t p s' : Inv s -> step s t (AProbe p) = Ok s' -> Inv s'.
 Proof.
   intros I H. inv_step H. fold (T s t) in H.
   destruct (started (T s t)) eqn:Hst; cbn [negb] in H; [|discriminate].
-  destruct (Nat.ltb_spec 0 (refs (T s t))) as [Hr|Hr]; cbn [negb] in H; [|discriminate].
+  destruct (Nat.ltb_spec 0 (refs (T s t))) as [Hr|Hr]; cbn [negb orb] in H; [|discriminate].
+  destruct (lends_from s t) eqn:Hlf; [discriminate|].
   destruct (live s) eqn:Hl; cbn [negb] in H; [|discriminate].
   destruct (nth_error (msgs s) p) as [m|] eqn:Hn; [|discriminate].
   destruct (forallb _ _) eqn:Hall; cbn [negb] in H; [|discriminate].
@@ -27,7 +28,8 @@ Proof.
     pose proof (J7 s I t (S p) m Hr ltac:(lia) Hn Hnhb). lia. }
   set (c' := tick (join (clk (T s t)) (view m)) t).
   set (x' := {| clk := c'; pend := pend (T s t); refs := refs (T s t);
-                excl := excl (T s t) || Nat.eqb (val m) 1; mustfree := mustfree (T s t); started := true |}).
+                excl := excl (T s t) || Nat.eqb (val m) 1; mustfree := mustfree (T s t); started := true;
+                lend := lend (T s t) |}).
   assert (HT : forall M W R l u, T {| msgs := M; Wc := W; Rc := R; live := l; ths := upd (ths s) t x' |} u
                          = if Nat.eqb u t then x' else T s u) by (intros; apply T_upd; auto).
   assert (Htot : total (upd (ths s) t x') = total (ths s)).
@@ -39,10 +41,12 @@ Proof.
   - intros u. rewrite HT. destruct (Nat.eqb_spec u t) as [->|Hne']; cbn [refs clk x'].
     + intros _. eapply cle_trans; [apply (J2 s I t Hr) | exact Hcc].
     + apply (J2 s I u).
-  - intros _ u. destruct (J3 s I Hl u) as [H3|[[h [Hh H3]]|[h [Hm H3]]]]; [left; exact H3| |].
+  - intros _ u. destruct (J3 s I Hl u) as [H3|[[h [Hh H3]]|[[h [Hm H3]]|[h [Hb H3]]]]]; [left; exact H3| | |].
     + right. left. exists h. rewrite HT. destruct (Nat.eqb_spec h t) as [->|Hne']; cbn [refs clk x']; [|auto].
       split; [lia|]. specialize (Hcc u). lia.
     + exfalso. exact (mustfree_no_refs s h t I Hm Hr).
+    + right. right. right. exists h. rewrite HT. destruct (Nat.eqb_spec h t) as [->|Hne']; cbn [lend clk x']; [|auto].
+      split; [exact Hb|]. specialize (Hcc u). lia.
   - intros u. rewrite HT. destruct (Nat.eqb_spec u t) as [->|Hne']; cbn [mustfree clk pend x'].
     + intros Hm. destruct (J4 s I t Hm) as (_ & H0 & _). pose proof (T_le_total s t). lia.
     + intros Hm. destruct (J4 s I u Hm) as (_ & H0 & _). pose proof (T_le_total s t). lia.
@@ -62,12 +66,16 @@ Proof.
         { intros w Hw. pose proof (T2_le_total s t w (not_eq_sym Hw)). lia. }
         split; [exact Hl|]. split; [exact Hr1|]. split; [rewrite Htot; exact Htot1|]. split.
         -- eapply cle_trans; [apply (J2 s I t Hr) | exact Hcc].
-        -- intros v. destruct (J3 s I Hl v) as [H3|[[h [Hh H3]]|[h [Hm H3]]]].
+        -- intros v. destruct (J3 s I Hl v) as [H3|[[h [Hh H3]]|[[h [Hm H3]]|[h [Hb H3]]]]].
            ++ unfold hdm in H3. rewrite Hms in H3. cbn [hd] in H3. subst c'. rewrite get_tick, !get_join.
               destruct (Nat.eqb_spec v t); subst; lia.
            ++ destruct (Nat.eqb_spec h t) as [->|Hne'']; [specialize (Hcc v); lia|].
               specialize (Hall0 h Hne''). lia.
            ++ exfalso. exact (mustfree_no_refs s h t I Hm Hr).
+           ++ exfalso. destruct (lend (T s h)) as [|q] eqn:El; [contradiction|].
+              destruct (J10 s I h q El) as (_ & _ & Hrq & _).
+              destruct (Nat.eq_dec q t) as [->|Hqt]; [exact (lends_from_false s t h Hlf El)|].
+              specialize (Hall0 q Hqt). lia.
     + intros He. destruct (J5 s I u He) as (_ & H1 & Ht1 & _).
       pose proof (T2_le_total s u t Hne'). lia.
   - intros Hf; congruence.
@@ -78,6 +86,7 @@ Proof.
   - intros u. rewrite HT. destruct (Nat.eqb_spec u t) as [->|Hne']; cbn [started x']; [discriminate|].
     apply (J8 s I u).
   - intros _ H0. rewrite Htot in H0. pose proof (total_ge (ths s) t). unfold T, getth in *. lia.
+  - apply J10_upd; auto. intros (c & Hc). exfalso. exact (lends_from_false s t c Hlf Hc).
 Qed.
 
 (* ---------- AFree ---------- *)
@@ -93,7 +102,7 @@ Proof.
   destruct (J4 s I t Hmf) as (_ & H0 & HW & HR & Huniq).
   set (c' := tick (join (clk (T s t)) (pend (T s t))) t).
   set (x' := {| clk := c'; pend := pend (T s t); refs := refs (T s t);
-                excl := false; mustfree := false; started := true |}).
+                excl := false; mustfree := false; started := true; lend := lend (T s t) |}).
   assert (HT : forall M W R l u, T {| msgs := M; Wc := W; Rc := R; live := l; ths := upd (ths s) t x' |} u
                          = if Nat.eqb u t then x' else T s u) by (intros; apply T_upd; auto).
   assert (Htot : total (upd (ths s) t x') = total (ths s)).
@@ -116,4 +125,5 @@ Proof.
   - intros u. rewrite HT. destruct (Nat.eqb_spec u t) as [->|Hne']; cbn [started x']; [discriminate|].
     apply (J8 s I u).
   - discriminate.
+  - apply J10_upd; auto. intros (c0 & Hc0). exfalso. exact (borrower_no_mustfree s c0 t t I Hc0 Hmf).
 Qed.
